@@ -190,3 +190,53 @@ def earlier_member(ref, t, v):
         return any(earlier_member(ref, m, x) for m, x in zip(s[2], v))
     return False
 
+
+
+def two_module_generic_case(rng, rec, prefix, det_extra=None):
+    """a generic dataclass specialised with two classes of the same name from two modules, reached through two holders
+    in random order (the compiled per-specialisation methods must not be confused); returns nothing, records
+    violations with signature prefix 'two-module-generic'."""
+    from ..family import Family
+    from mashumaro.codecs.basic import BasicDecoder, BasicEncoder
+    fam, other = Family(prefix), Family(prefix + "o")
+    try:
+        mix = "(DataClassDictMixin)" if rng.random() < 0.5 else ""
+        other.exec_src(f"@dataclass\nclass User{mix}:\n    name: str\n    age: int = 0\n")
+        fam.module.other = other.module
+        gmix = "DataClassDictMixin, " if rng.random() < 0.5 else ""
+        fam.exec_src("T = TypeVar('T')\n"
+                     f"@dataclass\nclass User{mix}:\n    name: str\n    email: str = ''\n"
+                     f"@dataclass\nclass Page({gmix}Generic[T]):\n    items: List[T] = field(default_factory=list)\n    first: Optional[T] = None\n"
+                     "@dataclass\nclass R1(DataClassDictMixin):\n    page: Page[User]\n"
+                     "@dataclass\nclass R2(DataClassDictMixin):\n    page: Page[other.User]\n")
+        m, o = fam.module, other.module
+        v1 = m.R1(m.Page([m.User("a", "a@x"), m.User("b")], m.User("c", "c@x")))
+        v2 = m.R2(m.Page([o.User("d", 4), o.User("e")], None))
+        cases = [("R1", m.R1, v1, m.User), ("R2", m.R2, v2, o.User)]
+        rng.shuffle(cases)
+        routes = rng.sample(["mixin", "codec"], 2)
+        for cname, cls, v, ucls in cases:
+            for route in routes:
+                rec.evaluation()
+                try:
+                    if route == "mixin":
+                        doc = v.to_dict()
+                        back = cls.from_dict(doc)
+                    else:
+                        doc = BasicEncoder(cls).encode(v)
+                        back = BasicDecoder(cls).decode(doc)
+                except Exception as e:
+                    rec.violation(f"two-module-generic:{route}:exception:{type(e).__name__}", {"holder": cname, "error": f"{type(e).__name__}: {e}"[:300],
+                                  "source": "".join(fam.sources[1:]) + "".join(other.sources[1:])}, {"scenario": "two-module-generic", "order": [c[0] for c in cases]})
+                    continue
+                ok = back == v and all(type(x) is ucls for x in back.page.items) and (back.page.first is None or type(back.page.first) is ucls)
+                if ok:
+                    rec.count("two_module_generic_ok")
+                    rec.nontrivial(("two-module-generic", cname, route, tuple(c[0] for c in cases)))
+                else:
+                    rec.violation(f"two-module-generic:{route}:wrong-class-or-value", {"holder": cname, "document": short(doc, 300), "decoded": short(back, 300),
+                                  "expected": short(v, 300), "source": "".join(fam.sources[1:]) + "".join(other.sources[1:])},
+                                  {"scenario": "two-module-generic", "order": [c[0] for c in cases]})
+    finally:
+        fam.dispose()
+        other.dispose()
